@@ -287,7 +287,9 @@ def inject(case, fault, rng):
         tgt['shape'] = rng.choice(bad_shapes(base))
         if mut == 'setitem' and len(tgt['shape']) > len(base) and all(n == 1 for n in tgt['shape'][:len(tgt['shape']) - len(base)]):
             return None       # NumPy item assignment drops extra leading unit axes: not a fault there
-        tgt['mask'] = 'A'
+        # the operand's mask in every representation: an array (its shape is wrong too), or a scalar False / True
+        # (then only the VALUES fail to fit, and a mask written first would survive the rejection)
+        tgt['mask'] = rng.choice(['A', 'F', 'T'])
         for d in tgt.get('derivs', {}).values():
             d.pop('shape', None)
         return c
@@ -315,11 +317,14 @@ def inject(case, fault, rng):
     if fault == 'denom':
         if tgt['cls'] == 'Boolean':
             return None
-        tgt['denom'] = [3] if tgt['denom'] else [2]
-        if mut in ('imul', 'itruediv') and not t['denom']:
-            t['denom'] = [2]                                       # both operands have denominators
-            if t['cls'] in ('Boolean',):
-                return None
+        # another denominator, including (1,) and lengths equal to a leading axis of the target: the trouble spot is
+        # an operand whose VALUE ARRAY happens to broadcast into the target's although its item structure differs
+        tgt['denom'] = rng.choice([d for d in ([1], [2], [3]) if d != tgt['denom']])
+        if mut in ('imul', 'itruediv', 'ifloordiv', 'imod') and rng.random() < 0.5:
+            tgt['shape'] = []                                      # shapeless operand carrying a denominator
+            tgt['mask'] = 'F'
+            for d in tgt.get('derivs', {}).values():
+                d.pop('shape', None)
         return c
     if fault == 'kind':
         if t['kind'] != 'int' or 'float' not in CLS[tgt['cls']][2]:
